@@ -542,6 +542,12 @@ def _width_is(ctx, m, n):
     return bool(b) and b[0] == b[1] == n
 
 
+def _branches_on_folded_value(ctx):
+    evs = [vkey(e[4]) for e in ctx.events if e[0] == 'call' and e[1] in ('eval', 'eval2', 'eval_double', 'eval_truth') and len(e) > 4 and e[4] is not None]
+    deps = set(ctx.facts) | set(ctx.bounds) | set(ctx.neq)
+    return any(k in deps for k in evs)
+
+
 def r054_path(be, it, ctx, mems, rep):
     """static bit-field merge on one fully walked struct path"""
     init = ctx.root_init
@@ -578,6 +584,11 @@ def r054_path(be, it, ctx, mems, rep):
         ok = f is not None
         msg = 'the value stored for a bit-field is %s, not old | ((new & ((1 << bit_width) - 1)) << bit_offset)' % show(val)
         construct = 'merge-formula'
+        if f is None:
+            # the path branched on the folded initializer value itself (`eval_truth(e) ? 1 : 0`): the stored term holds a constant, the formula cannot be compared
+            if _branches_on_folded_value(ctx):
+                rep.undecided('R05.4', '%s:write_gvar_data:merge-formula' % U, 'the bit-field arm branches on the folded initializer value: the stored term %s cannot be compared with the merge formula' % show(val), where=where)
+                continue
         if ok:
             old = f['old']
             okold = isinstance(old, Term) and old.op == 'load' and isinstance(old.args[0], Term) and old.args[0].op == 'mem' and lin_eq(old.args[0].args[0], s[1].args[0])
@@ -609,6 +620,9 @@ def r054_path(be, it, ctx, mems, rep):
                 ok = False; msg = 'the bit-field merge does not start from the bytes already in the storage unit (neighbouring bit-fields are lost)'; construct = 'merge-old-value'
             elif bj is not None and bj[0] is True and is_bool:
                 pass
+            elif not ev and _branches_on_folded_value(ctx):
+                rep.undecided('R05.4', '%s:write_gvar_data:merge-formula' % U, 'the bit-field arm branches on the folded initializer value: the merged value %s cannot be traced to it' % show(f['new']), where=where)
+                continue
             elif not ev:
                 ok = False; msg = 'the merged value is not the evaluated initializer expression'; construct = 'merge-new-value'
             elif (f['form'] == 'shift' and f['w'] is not m.fields.get('bit_width')) or f['o'] is not m.fields.get('bit_offset'):
@@ -904,10 +918,16 @@ def run(P, rep, tier):
                        'whole-struct copy expression) and the member lookup of a `.name` designator (R05.12: exact name match, members passed over differ, anonymous aggregates '
                        'probed) are decided; the constant-expression evaluator is checked per node kind for its label discipline and for evaluating exactly the selected arm of a '
                        'conditional (R05.11); the token-stream dependent rest (brace elision, excess elements) is not, nor is the reset of '
-                       'individual members when a whole aggregate sub-object is initialised a second time by a list.')
+                       'individual members when a whole aggregate sub-object is initialised a second time by a list. '
+                       'Further decided: the member cursor passes over unnamed bit-fields (R05.13, C11 6.7.9p9); the separator protocol of the list walk (R05.14: every element parser '
+                       'is entered at the start of an element, `,` is skipped exactly behind an element, also when a walk is continued behind a designated sub-object or brace-elided; '
+                       'trailing comma); aggregates without members are initialised without touching children or NULL members (R05.15); a static _Bool object / bit-field receives '
+                       'the converted value (R05.2/R05.4); every lvalue kind of array type is an address constant in eval2 (R05.7).')
     rep.assumptions += ['calloc succeeds', 'loops over members/elements are analysed for 0..2 generic iterations; the facts checked are per-iteration facts',
                         'bit-field members have an integer type of size 1, 2, 4 or 8',
-                        'formula rules compare normalised terms (commutativity of | and &); an equivalent rewrite outside that form would be reported']
+                        'formula rules compare normalised terms (commutativity of | and &); an equivalent rewrite outside that form would be reported',
+                        'R05.14 judges token sequences of valid programs: behind an element stands `,` or `}`, an element does not start with `,`; array designator indices are non-negative',
+                        'R05.13/R05.14 walk member lists of at most 3 members behind any starting member (per-member facts)']
     rep.rule('R05.1', 'both back ends visit exactly the sub-objects C11 6.7.9 prescribes: array elements 0..len-1 at stride base->size, every struct member (no arm leaves the member walk), the chosen union member; a struct-valued initializer expression is honoured or diagnosed; the parser takes an expression as the value of a whole struct/union exactly when it has the object\'s own type (also through a copy_type() copy), any other expression initialises the first member by brace elision', floor=20)
     rep.rule('R05.2', 'the static back end stores every scalar type class with its own width and representation (or nothing when there is no initializer)', floor=14)
     rep.rule('R05.4', 'static bit-field merge is old | ((new & ((1 << width) - 1)) << offset), computed in 64 bits, read and written with the width of the storage unit', floor=4)
@@ -1049,6 +1069,7 @@ def _addr_arm(P, u, E, cat, rep, fn, kind, terms, plus, labsrc):
             rep.ob('R05.7', key + '/non-address-accepted', False, 'eval2 accepts the VALUE of a non-array member as an address constant', where=where, facts={'path': ctx.trail})
             continue
         if kind == 'ND_DEREF' and fn == 'eval2' and cat_of(node.fields['ty']) != ['array']:
+            nrej += 1
             rep.ob('R05.7', key + '/non-address-accepted', False, 'eval2 accepts the VALUE of a dereferenced pointer (a load from memory) as a constant', where=where, facts={'path': ctx.trail})
             continue
         nret += 1
@@ -1574,9 +1595,20 @@ def _sep_interp(P, u, E):
         if s == ',':
             ctx.emit('proto', 'skip-comma', st, _tk_fn(n), n.line, known)
             if st == 'E':
-                raise Infeasible('a valid program is rejected here (reported)')
+                raise NoReturn('error_tok', [T, "expected '%s'" % s], n.line)      # the path is kept: the event above is judged
         if (known is not None and known != s) or s in nots:
             raise NoReturn('error_tok', [T, "expected '%s'" % s], n.line)
+        if s == '}' and st == 'A':
+            # behind the last element of a braced list stands `}` or `, }` (C11 6.7.9 syntax: { initializer-list , })
+            if known is None and ',' not in nots:
+                nx = it.read_field(T, 'next')
+                if isinstance(nx, Obj) and nx.meta.get('is') in (None, '}') and '}' not in nx.meta.get('not', ()):
+                    if ctx.choose(2, 'skip(%s, "}")' % T.label) == 1:
+                        T.meta['is'] = ','; nx.meta['is'] = '}'
+                        ctx.note('%s is the trailing comma of the list' % T.label)
+                        ctx.emit('proto', 'close', st, _tk_fn(n), n.line, 'trailing-comma')
+                        raise NoReturn('error_tok', [T, "expected '%s'" % s], n.line)      # the path is kept: the event above is judged
+            ctx.emit('proto', 'close', st, _tk_fn(n), n.line, 'ok')
         T.meta['is'] = s
         return it.read_field(T, 'next')
 
@@ -1634,7 +1666,8 @@ def _sep_interp(P, u, E):
 def r0514(P, u, E, rep):
     rep.rule('R05.14', 'separator protocol of the initializer-list walk: every element parser (initializer2, designation, assign, skip_excess_element) and every designator is '
              'entered at the start of an element, `,` is skipped exactly behind an element, and a walk hands back the token behind its last element -- also when '
-             'array_initializer2 / struct_initializer2 continue behind a designated sub-object (`{ [0].a = 1, 2 }`, `{ .in.a = 1, .c = 3 }`) or walk a brace-elided sub-aggregate', floor=12)
+             'array_initializer2 / struct_initializer2 continue behind a designated sub-object (`{ [0].a = 1, 2 }`, `{ .in.a = 1, .c = 3 }`) or walk a brace-elided sub-aggregate; '
+             'a trailing comma before the closing brace is accepted', floor=20)
     _need(u, 'initializer2', 'designation', 'array_initializer2', 'struct_initializer2')
     scal = E.get('TY_INT')
     roots = [('initializer2', 'TY_ARRAY'), ('initializer2', 'TY_STRUCT'), ('initializer2', 'TY_UNION'), ('initializer2', None),
@@ -1666,7 +1699,12 @@ def r0514(P, u, E, rep):
                 _, what, st, fn, line, extra = e
                 if st is None:
                     continue
-                if what == 'skip-comma':
+                if what == 'close':
+                    ok = extra == 'ok'
+                    construct = 'closing-brace-behind-the-last-element' if ok else 'trailing-comma-before-the-closing-brace-rejected'
+                    msg = ('%s demands the closing `}` directly behind the element although a trailing comma may stand there (C11 6.7.9: `{ initializer-list , }`): '
+                           'a valid initializer such as `int x = {3,};` is rejected with "expected \'}\'"' % fn)
+                elif what == 'skip-comma':
                     ok = st == 'A' and extra in (None, ',')
                     if st == 'E':
                         construct, msg = 'comma-demanded-where-an-element-starts', ('%s demands a `,` (skip) at a token that is the START of an initializer element: the valid initializer is rejected '
@@ -1704,7 +1742,7 @@ def r0514(P, u, E, rep):
 # ------------------------------------------------------------------------------------------------
 def r0515(P, u, E, rep):
     rep.rule('R05.15', 'an aggregate without members (`struct E {}`, `union U {}`: init->children has length 0) is initialised without touching init->children[...] and '
-             'without dereferencing the NULL member list, by the parser (struct_initializer1/2, union_initializer) and by both back ends', floor=7)
+             'without dereferencing the NULL member list, by the parser (struct_initializer1/2, union_initializer) and by both back ends', floor=6)
 
     def judge(fn, word, it, res, child_events, mode):
         key = '%s:%s:empty-%s' % (U, fn, word)
@@ -1723,7 +1761,7 @@ def r0515(P, u, E, rep):
             ch = field(ctx.root_init, 'children')
             touched = [e for e in child_events(ctx) if child_index(ch, settle(it, e[0])) is not None]
             rep.ob('R05.15', key + ('/children-touched' if touched else '/nothing-touched'), not touched,
-                   '%s hands init->children[...] of a %s without members to %s: the Initializer of an empty %s has no children (calloc(0)), the pointer read there is garbage and '
+                   '%s (with the walks it calls) hands init->children[...] of a %s without members to %s: the Initializer of an empty %s has no children (calloc(0)), the pointer read there is garbage and '
                    '`%s T {}; %s T x = {};` (%s) crashes the compiler' % (fn, word, touched[0][1] if touched else '', word, word, word, mode),
                    where='%s:%d' % (U, touched[0][2] if touched else (u.fn(fn).line if u.fn(fn) else 0)), facts={'path': ctx.trail})
         if n == 0 and not it.null_derefs:
@@ -1741,15 +1779,12 @@ def r0515(P, u, E, rep):
 
     def subs_of(it):
         return lambda ctx: [(e[2][2], e[1], e[3]) for e in ctx.events if e[0] == 'sub' and e[1] in ('initializer2', 'designation') and len(e[2]) > 2]
-    # ---- parser
-    for fn, kind, word, extra in (('union_initializer', 'TY_UNION', 'union', None), ('struct_initializer1', 'TY_STRUCT', 'struct', None),
-                                  ('struct_initializer2', 'TY_STRUCT', 'struct', lambda ctx: [0])):
-        if fn not in u.functions:
-            raise AnalysisBroken('anchor function %s vanished' % fn)
-        it = _cursor_interp(P, u, drop=('designation',), cls=NullInterp)
-        it.cut['designation'] = lambda it_, ctx, n_, a: (_set_rest(it_, ctx, a[0], 'tok-after-designation'), ctx.emit('sub', 'designation', a, n_.line), None)[2]
-        res = it.explore(fn, mk_empty(kind, extra))
-        judge(fn, word, it, res, subs_of(it), 'static or automatic')
+    # ---- parser: from initializer2 (the entry of every sub-object) with the walks it calls inlined, so that a guard may sit in the caller or in the callee
+    for kind, word in (('TY_UNION', 'union'), ('TY_STRUCT', 'struct')):
+        it = _override_interp(P, u, E, cut_designation=True, cls=NullInterp)
+        it.models.pop('struct_initializer2', None)
+        res = it.explore('initializer2', mk_empty(kind))
+        judge('initializer2', word, it, res, subs_of(it), 'static or automatic')
     # ---- back ends
     for fname in ('create_lvar_init', 'write_gvar_data'):
         be = BackEnd(P, u, E, fname)
@@ -2940,7 +2975,7 @@ def _r059_gvar(P, u, E, rep):
 # in the Initializer node (selected union member, scalar expression, whole-struct copy expression) is determined by the
 # initializer parsed NOW, whatever an earlier initializer of the same sub-object left there
 # ------------------------------------------------------------------------------------------------
-def _override_interp(P, u, E, equal_is=None, cut_designation=False):
+def _override_interp(P, u, E, equal_is=None, cut_designation=False, cls=None):
     models = _cursor_models(equal_is)
     models.pop('initializer2', None)
 
@@ -2966,7 +3001,7 @@ def _override_interp(P, u, E, equal_is=None, cut_designation=False):
     if cut_designation:
         models.pop('designation', None)
         cut['designation'] = h_sub('designation')
-    return TInterp(P, u, {'models': models, 'cut': cut,
+    return (cls or TInterp)(P, u, {'models': models, 'cut': cut,
                           'opaque': ['skip', 'consume_end', 'consume', 'is_end', 'count_array_init_elements', 'new_initializer', 'array_of', 'skip_excess_element', 'add_type'],
                           'loop_limit': 1, 'lazy_field': children_hook(), 'track_stores': True})
 
